@@ -73,6 +73,7 @@ func c04(c *Ctx) {
 	r.Rule("R-C04.2", "every path to encrypting/returning credentials passes validation success and the three equalities K.RegistrationNonce/R.Nonce, K.CertificatePublicKeyPkix/R.CertificatePublicKeyPkix, K.EncryptionPublicKeyBytes/R.EncryptionPublicKeyBytes (so only the key matching the signed request can open the response and it echoes that request's nonce); the fetch response is built from the record K: NodeCredentials.RegistrationNonce/CertificateBundles from K, server public key derived from K's private key, EncryptMessage(nodeCreds, K), signature = Sign(_, the encrypted bytes placed in the response) by roots.Current's signer")
 	r.Rule("R-C04.3", "in the authorisation helper no field of the record is written after its Store call, and the returned record is the stored object or the record reloaded after a duplicate-record error")
 	r.Rule("R-C04.4", "HandleFetchNodeCredentialsResponse: every success return and the copy of certificate bundles are cut by successful DecryptMessage(input.EncryptedNodeCredentials, n, new) and by byte-equality of the expected nonce with new.RegistrationNonce")
+	r.Rule("R-C04.6", "sibling agreement on the node's nonce: the value HandleFetchNodeCredentialsResponse compares with the decrypted RegistrationNonce has the same sources (the credentials' RegistrationNonce; the base58-decoded activation token option) as the value CreateFetchNodeCredentialsRequest puts into the signed request")
 	r.Rule("R-C04.5", "the server encryption private key is a fresh 32-byte buffer filled from the random reader with error and length checked before the record is stored")
 	r.NotDecided = append(r.NotDecided, "that enrollment always completes on every back end and configuration (liveness)", "x509/TLS acceptance of the issued chain", "AEAD/X25519 semantics ('only the matching private key can open the response')")
 
@@ -473,6 +474,63 @@ func c04Handle(c *Ctx) {
 		}
 		return len(pp.Fields) == 0
 	}, core.FieldOf(nw, "RegistrationNonce"))
+	// R-C04.6: what the node expects is what the node sent
+	nonceSources := func(v ssa.Value, recv ssa.Value) (fromCreds, fromToken bool, other string) {
+		eachSource(v, func(src ssa.Value) {
+			if core.IsNilConst(src) {
+				return
+			}
+			if sp := core.PathOf(src); sp.Root == recv && sp.HasFields("RegistrationNonce") {
+				fromCreds = true
+				return
+			}
+			if bc, bi := core.CallResult(src); bc != nil && bi == 0 && strings.HasPrefix(core.CalleeName(bc.Common()), "github.com/mr-tron/base58.") {
+				// decode(TrimPrefix(opts.WithActivationToken, ...))
+				arg := core.Strip(bc.Call.Args[0])
+				if tc, _ := core.CallResult(arg); tc != nil && len(tc.Call.Args) > 0 {
+					arg = core.Strip(tc.Call.Args[0])
+				}
+				if core.PathOf(arg).HasFields("WithActivationToken") {
+					fromToken = true
+					return
+				}
+			}
+			other = core.ValueName(src)
+		})
+		return
+	}
+	if C := c.need("R-C04.6", "types", "(*NodeCredentials).CreateFetchNodeCredentialsRequest"); C != nil {
+		var sentCreds, sentToken bool
+		sentOther := ""
+		nSent := 0
+		for _, st := range storesToField(C, "types.FetchNodeCredentialsInfo", "Nonce") {
+			nSent++
+			a, b, o := nonceSources(st.Val, C.Params[0])
+			sentCreds, sentToken = sentCreds || a, sentToken || b
+			if o != "" {
+				sentOther = o
+			}
+		}
+		var expCreds, expToken bool
+		expOther := ""
+		nCmp := 0
+		for _, cc := range callsNamed(N, "crypto/subtle.ConstantTimeCompare", "bytes.Equal") {
+			for k := 0; k < 2; k++ {
+				op := core.PathOf(cc.Call.Args[k])
+				if op.Root == nw && op.HasFields("RegistrationNonce") {
+					nCmp++
+					expCreds, expToken, expOther = nonceSources(cc.Call.Args[1-k], n)
+				}
+			}
+		}
+		if nSent == 0 || nCmp != 1 {
+			r.Unk("R-C04.6", name+" expected nonce", p.Pos(N.Pos()), fmt.Sprintf("stores to the request nonce=%d comparisons with the decrypted nonce=%d", nSent, nCmp))
+		} else {
+			r.Check(expCreds == sentCreds && expToken == sentToken && expOther == "" && sentOther == "", "R-C04.6", name+" expected nonce agrees with the request's", p.Pos(N.Pos()),
+				fmt.Sprintf("both: credentials' nonce=%v, activation-token option=%v", sentCreds, sentToken),
+				fmt.Sprintf("the request carries {credentials' nonce=%v, token option=%v %s} but the response is checked against {credentials' nonce=%v, token option=%v %s}: an honest token enrollment cannot complete, or a response echoing a nonce that was never sent is accepted", sentCreds, sentToken, sentOther, expCreds, expToken, expOther))
+		}
+	}
 	type sink struct {
 		nm string
 		in ssa.Instruction
